@@ -193,6 +193,13 @@ Lemma import_inline_rejected rules lr ext :
   (exists c, import_field (XEnum XInline rules lr ext) = RErr c) /\
   (exists c, import_field (XEnum XUnset rules lr ext) = RErr c).
 Proof. split; eexists; reflexivity. Qed.
+(* the same for object and oneof fields, at the top of a property or as the item of an array / map *)
+Lemma import_inline_rejected_all :
+  (forall fl rules ext, (exists c, import_field (XObject XInline fl rules ext) = RErr c) /\
+                        (exists c, import_field (XObject XUnset fl rules ext) = RErr c)) /\
+  (forall rules lr ext, (exists c, import_field (XOneof XInline rules lr ext) = RErr c) /\
+                        (exists c, import_field (XOneof XUnset rules lr ext) = RErr c)).
+Proof. split; intros; split; eexists; reflexivity. Qed.
 
 (* ---------------------------------------------------------------- the import succeeds on every importable root *)
 Lemma import_field_total f :
